@@ -29,3 +29,6 @@ Definition for_range {S} (n : Z) (body : S -> res S) (s : S) : res S := iterM (Z
 (* EnumClass(value): ValueError unless a member has that value *)
 Definition enum_of (members : list (string * N)) (v : Z) : res Z :=
   if existsb (fun p => Z.of_N (snd p) =? v) members then Ok v else Err EValue.
+
+(* what happens to a received data message at the point where it is handed over (Gen/HandOver.v: Protocol._deliver_message) *)
+Inductive handover_action := ToRequester | ToQueue | ToApp.
